@@ -13,7 +13,7 @@ import "math"
 
 func init() { vfRegistry["VfH_decl"] = VfH_decl }
 
-var vfDeclCases = []string{"data", "globals", "fglobals", "f32consts", "f64consts", "i64consts", "k1", "k1alias", "locals", "blockres", "sel", "misc", "start"}
+var vfDeclCases = []string{"data", "globals", "fglobals", "f32consts", "f64consts", "i64consts", "k1", "k1alias", "locals", "blockres", "sel", "misc", "start", "nine", "nineres"}
 
 func VfN_decl() int { return len(vfDeclCases) }
 
@@ -91,6 +91,25 @@ func VfH_decl() {
 		// memory.copy 100 <- 64 (4 bytes), memory.fill 120 <- 255 (2 bytes), then unreachable
 		vfAssert(trapped, "decl/unreachable-traps")
 		vfAssert(vfWasmMemRead(h, 100, 4) == 0x00636261 && vfWasmMemRead(h, 120, 2) == 0xffff && vfWasmMemRead(h, 122, 1) == 0, "decl/memory-copy-and-fill")
+	case "nine":
+		k, f := vfU64("k.u64"), vfU64("f.u64")
+		vfAssume(vfB2U(vfNaN('F', f)) == 0)
+		want := math.Float64bits(math.Float64frombits(f) + float64(int64(k)))
+		ok := uint64(1)
+		for i, fn := range []string{"eight", "nine", "ten"} {
+			args := []uint64{1, 2, 3, 4, 5, 6}
+			for j := 0; j < i; j++ {
+				args = append(args, 7)
+			}
+			args = append(args, k, f)
+			r, trapped := vfWasmCall(h, fn, args...)
+			ok &= vfB2U(!trapped) & (vfB2U(r[0] == want) | vfB2U(vfNaN('F', r[0]))&vfB2U(vfNaN('F', want)))
+		}
+		vfAssert(ok == 1, "decl/long-parameter-lists-keep-each-parameter-type")
+	case "nineres":
+		a := vfU32("a.u32")
+		r, trapped := vfWasmCall(h, "nineres", uint64(a))
+		vfAssert(!trapped && len(r) == 9 && r[0] == uint64(a) && r[6] == uint64(a) && r[7] == 7 && r[8] == math.Float64bits(2.5), "decl/nine-results-keep-each-result-type")
 	case "start":
 		g := vfWasmGlobal(h, "gexp")
 		vfAssert(g == 77, "decl/start-function-ran-and-exported-global-is-readable")
